@@ -11,6 +11,12 @@ CHECKS = {
  "C02": dict(cat="exploration", technique="runtime reference-model monitor over all local entity indices; non-conforming independent +/- sides",
    text="Every exterior-facet/interior-facet/vertex kernel is executed for every local entity index (all or sampled (f+,f-) pairs, sampled permutation codes) with independent geometry/data per side and compared with the oracle's own entity maps/normals/macro layout.",
    note="Trusted: UFL, basix topology/geometry. Prism normals/interior facets are rejected by ffcx and not covered.", ref="3/C02"),
+ "C04": dict(cat="exploration", technique="runtime reference-model monitor; buffers packed from descriptor fields only",
+   text="Expression kernels (rank 0/1, value shapes (),(n,),(n,n), cell points and facet points for all facets x all permutation codes, several per module) are executed and compared with the oracle's evaluation of the ORIGINAL expression; every descriptor field is compared with the request.",
+   note="Trusted: UFL, basix. Descriptor semantics per ufcx.h.", ref="3/C04"),
+ "C06": dict(cat="exploration", technique="descriptor invariants + per-(type,id) kernel sums vs harness-grouped original integrals + contract on common.integral_data",
+   text="Seeded forms with random integral types/ids (ints, tuples, everywhere, repeated ids with different metadata, several forms per module, prisms) are compiled; offsets/ids invariants are read from the cffi struct, every declared (type,id) is executed for every entity and compared with the sum of the user's integrands grouped by the harness itself; metadata fields are compared with the form.",
+   note="Every integral carries an explicit degree so the reference is independent of UFL's integral merging. Trusted: UFL lowering, basix.", ref="3/C06"),
 }
 NA_REASON = "check not built yet in this round (runtime monitoring applies; see DESIGN.md section 3)"
 
